@@ -21,9 +21,20 @@ class CoqEvalError(Exception):
     pass
 
 
+def _big_stack():
+    """Case files hold deeply nested literals (HTML of deep schemas, long strings as lists of characters): coqc's parser and the
+    VM recurse on them; give the child the largest stack the hard limit allows."""
+    import resource
+    soft, hard = resource.getrlimit(resource.RLIMIT_STACK)
+    try:
+        resource.setrlimit(resource.RLIMIT_STACK, (hard, hard))
+    except (ValueError, OSError):
+        pass
+
+
 def _run_shard(path, timeout):
     cmd = ["timeout", str(timeout), "coqc", "-Q", os.path.join(COQ_DIR, "theories"), "Valida", "-w", "none", path]
-    p = subprocess.run(cmd, capture_output=True, text=True, cwd=os.path.dirname(path))
+    p = subprocess.run(cmd, capture_output=True, text=True, cwd=os.path.dirname(path), preexec_fn=_big_stack)
     if p.returncode != 0:
         raise CoqEvalError(f"coqc failed on {path} (rc={p.returncode}):\n{p.stdout[-2000:]}\n{p.stderr[-4000:]}")
     m = re.search(r"=\s*(\[[^\]]*\])", p.stdout, re.S)
@@ -67,7 +78,7 @@ def eval_terms(name, imports, terms, timeout=300, prelude=""):
         for t in terms:
             fh.write(f"Eval vm_compute in ({t}).\n")
     cmd = ["timeout", str(timeout), "coqc", "-Q", os.path.join(COQ_DIR, "theories"), "Valida", "-w", "none", path]
-    p = subprocess.run(cmd, capture_output=True, text=True, cwd=d)
+    p = subprocess.run(cmd, capture_output=True, text=True, cwd=d, preexec_fn=_big_stack)
     if p.returncode != 0:
         raise CoqEvalError(p.stdout[-2000:] + p.stderr[-4000:])
     return p.stdout
